@@ -95,7 +95,7 @@ func plans(id, tier string) (Plan, bool) {
 		var deep []Job
 		if th {
 			// two deviating range executions per Match on a smaller pool
-			deep = []Job{{Pkg: pkgV2, Harness: "c04_maporder_corpus", Instr: "v2map", Params: "docs=24;deviations=2", Shards: 16}}
+			deep = []Job{{Pkg: pkgV2, Harness: "c04_maporder_corpus", Instr: "v2map", Params: "docs=8;deviations=2", Shards: 16}}
 		}
 		return Plan{Level: "model_checking", Jobs: append(deep, []Job{
 			{Pkg: pkgV2, Harness: "c04_maporder_small", Instr: "v2map", Params: map[bool]string{false: "maxlen=5;deviations=1", true: "maxlen=7;deviations=1"}[th], Shards: pick(8, 16)},
